@@ -65,8 +65,10 @@ type Scenario struct {
 	Liveness    bool // at the end of the run every call must have resolved if it was issued long ago (virtual time and events)
 	// GiveUpAt/GiveUpTo: when the script has not reached step GiveUpTo after GiveUpAt events (a deviation made a
 	// guard unsatisfiable, or the implementation is stuck), the steps in between are skipped
-	GiveUpAt               int
-	GiveUpTo               string
+	GiveUpAt int
+	GiveUpTo string
+	// Latency: one-way delay of a request in virtual time (nil or 0: delivered at the instant it was sent)
+	Latency                func(w *World, from, to int, kind string) time.Duration
 	Fine                   bool // branch on thread steps (preemption bounded)
 	RCL                    bool // RestoreCommittedLogs
 	NoStoreFaultBeforeStep int  // store faults only count from this script position on
@@ -131,7 +133,8 @@ type Msg struct {
 	Dropped   bool // request dropped to the caller but may still be delivered late
 	Dupped    bool
 	ToInc     int
-	HandledAt int // event number at which the handler's response became available (0 = not yet)
+	inFlight  bool // still travelling (Scenario.Latency); becomes deliverable when its network timer fires
+	HandledAt int  // event number at which the handler's response became available (0 = not yet)
 	DelivAt   int
 	SentAt    int
 	Discard   bool // response is thrown away (dup / late)
@@ -442,6 +445,12 @@ func (t *VTrans) send(target raft.ServerAddress, kind string, req any, body []by
 	w.msgs = append(w.msgs, m)
 	w.live = append(w.live, m)
 	w.mon.OnSend(m)
+	if w.sc.Latency != nil && to >= 0 {
+		if d := w.sc.Latency(w, m.From, to, kind); d > 0 {
+			m.inFlight = true
+			vtime.AfterFuncGroup(d, -1, fmt.Sprintf("net m%d", m.ID), func() { m.inFlight = false })
+		}
+	}
 	return m
 }
 
@@ -768,7 +777,7 @@ func (w *World) envOptions() []envOpt {
 	// 2. deliveries
 	for _, m := range w.live {
 		m := m
-		if m.St != mPending {
+		if m.St != mPending || m.inFlight {
 			continue
 		}
 		if m.To < 0 {
